@@ -120,7 +120,7 @@ def run(unit_text, workdir, name, rlimit=None, seed=None, extra=(), census=True,
         kind = classify(msg)
         spans = d.get('spans', [])
         prim = [s for s in spans if s.get('is_primary')]
-        if kind == 'other' and not _is_verification_msg(msg):
+        if d.get('code') or (kind == 'other' and not _is_verification_msg(msg)):
             r.hard_errors.append((msg, prim[0]['line_start'] if prim else 0, d.get('rendered', '')))
             continue
         f = Failure()
